@@ -79,7 +79,7 @@ Lemma delete_edge_core_view h s : deferred s = true ->
   edges s' = edges s /\ edel s' = upd h true (edel s) /\ deferred s' = true.
 Proof.
   intros D. cbv zeta. unfold delete_edge_core. rewrite D. cbn [negb]. rewrite andb_false_r.
-  destruct (vbu s); destruct (edge_at s h) as [v0 v1]; cbn [deferred set_out_hes]; rewrite D; repeat split; reflexivity.
+  destruct (vbu s); destruct (edge_at s h) as [v0 v1]; cbn [deferred set_out_hes]; rewrite D; repeat split; try reflexivity; exact D.
 Qed.
 
 Lemma bu_inv2_del_desc_edges l s : NoDup l -> bu_inv2 s -> (forall e, In e l -> ok_edge s e) ->
